@@ -39,6 +39,12 @@ def main():
         print(meta["error"])
         return 1
     env = dict(os.environ, PYTHONPATH=wt)
+    c_change = any(l.startswith("+++ ") and l.strip().endswith((".c", ".h")) for l in open(f"{sd}/patch.diff"))
+    if c_change:          # a C change only takes effect after the extension is rebuilt (inside the scratch worktree)
+        rc_b, out_b = sh("/venv/bin/python setup.py build_ext -i", cwd=wt, timeout=900)
+        meta["ran"].append(f"cd {wt} && /venv/bin/python setup.py build_ext -i -> rc {rc_b}")
+        if rc_b != 0:
+            meta["error"] = "build failed: " + out_b[-400:]
     sh(f"cp {sd}/demo.py {wt}/demo_seed.py")
     rc_with, out_with = sh("/venv/bin/python demo_seed.py", cwd=wt, env=env, timeout=600)
     meta["demo_with_change_rc"] = rc_with
@@ -64,6 +70,8 @@ def main():
         meta["ran"].append(f"cd {wt} && PYTHONPATH={wt} " + base["cmd"].split("&& ")[1].replace("<file>", junit)
                            + f"  -> {len(passed)} passed, {len(missing)} of the 492 stable tests missing")
     sh("git checkout -q -- .", cwd=wt)
+    if c_change:
+        sh("/venv/bin/python setup.py build_ext -i", cwd=wt, timeout=900)
     rc_wo, out_wo = sh("/venv/bin/python demo_seed.py", cwd=wt, env=env, timeout=600)
     meta["demo_without_change_rc"] = rc_wo
     meta["ran"].append(f"(change reverted) PYTHONPATH={wt} /venv/bin/python demo_seed.py -> rc {rc_wo} (must be 0)")
